@@ -56,6 +56,20 @@ func c12Exec(op string) string {
 	if !deepEq(before, m) {
 		note = "receiver modified by NewMap"
 	}
+	// malformed pairs as the documentation of NewMap lists them: more than one ':', a new key
+	// (explicit or shorthand) with a wildcard or an index, an empty old or new part
+	if err == nil && note == "" {
+		for _, p := range pairs {
+			if p == "" {
+				continue
+			}
+			ok, nk, fine := pairParts(p)
+			if !fine || ok == "" || nk == "" || strings.ContainsAny(nk, "*[") {
+				note = fmt.Sprintf("MALFORMED pair %q was accepted without an error", p)
+				break
+			}
+		}
+	}
 	// exact content when the new paths are prefix-free (no new path equals or extends another)
 	if err == nil && note == "" {
 		var news [][]string
